@@ -22,6 +22,17 @@ def make_hashable(x):
     return x
 
 
+def _unique_objects(x, _seen):
+    """Replace every leaf (index or size) in the nested tuple ``x`` by a single
+    representative object per distinct value. ``pickle`` memoizes by identity,
+    so otherwise the bytes - and thus the hash - depend on whether equal
+    labels happen to be the same object or not.
+    """
+    if isinstance(x, tuple):
+        return tuple(_unique_objects(y, _seen) for y in x)
+    return _seen.setdefault((x.__class__, x), x)
+
+
 def hash_contraction_a(inputs, output, size_dict):
     if not isinstance(next(iter(size_dict.values()), 1), int):
         # hashing e.g. numpy int won't match!
@@ -29,10 +40,13 @@ def hash_contraction_a(inputs, output, size_dict):
 
     return hashlib.sha1(
         pickle.dumps(
-            (
-                tuple(map(sortedtuple, inputs)),
-                sortedtuple(output),
-                sortedtuple(size_dict.items()),
+            _unique_objects(
+                (
+                    tuple(map(sortedtuple, inputs)),
+                    sortedtuple(output),
+                    sortedtuple(size_dict.items()),
+                ),
+                {},
             )
         )
     ).hexdigest()
@@ -51,7 +65,11 @@ def hash_contraction_b(inputs, output, size_dict):
     canonical_edges = sortedtuple(map(sortedtuple, edges.values()))
 
     return hashlib.sha1(
-        pickle.dumps((canonical_edges, sortedtuple(size_dict.items())))
+        pickle.dumps(
+            _unique_objects(
+                (canonical_edges, sortedtuple(size_dict.items())), {}
+            )
+        )
     ).hexdigest()
 
 
